@@ -2,7 +2,8 @@
    Only statements, each closed by a short proof ending in [exact <lemma>]. *)
 From Coq Require Import List NArith Bool Arith Lia.
 Import ListNotations.
-From JV Require Import Model.LexBase Model.LexTokeniter Spec.LexTrimSpec Proofs.LexInv Proofs.LexTrim.
+From JV Require Import Model.LexBase Model.LexTokeniter Spec.LexTrimSpec Proofs.LexInv Proofs.LexTrim
+  Proofs.LexSkelA Proofs.LexSkelB Proofs.LexSkelC Proofs.LexSkelD.
 Open Scope N_scope.
 
 (* Non-whitespace text is never removed: the non-whitespace characters of the (normalised)
@@ -37,10 +38,48 @@ Theorem C12_trim_refines_right : forall trim_blocks e m rest,
 Proof. intros t e m rest H. exact (end_alts_right_rule t e m rest H). Qed.
 Print Assumptions C12_trim_refines_right.
 
-(* Whole templates, small scope (a Coq-checked enumeration, NOT the unbounded statement):
-   for every skeleton  text tag text  over the six texts below, every tag kind with every
-   modifier combination, and all four trim_blocks / lstrip_blocks settings, the data the
-   lexer model outputs for the unparsed template equals spec_trim. *)
+(* Whole templates, EVERY skeleton (any number of segments: texts, block / comment / variable tags
+   and raw blocks with every modifier combination), all four trim_blocks / lstrip_blocks
+   settings, default delimiters: the data the lexer model outputs for the template text of a
+   well-formed skeleton is spec_trim.  Texts and raw bodies range over all strings without
+   '{' and CR.  Induction over the segments; no bound. *)
+Theorem C12_trim_refines : forall trim_blocks lstrip_blocks sk,
+  skel_wf (txt_of 123) sk = true ->
+  render_data (cfg_default trim_blocks lstrip_blocks false [10])
+              (unparse (cfg_default trim_blocks lstrip_blocks false [10]) sk)
+  = Some (spec_trim trim_blocks lstrip_blocks [] sk).
+Proof. intros t l sk H. exact (trim_refines_default t l sk H). Qed.
+Print Assumptions C12_trim_refines.
+
+(* The same for every configuration whose delimiters satisfy the bundle of local facts
+   [skel_cfg] (start strings recognised at a tag start, delimiter-free text characters, end
+   strings not starting with a sign or ending in a line break, tag bodies lexed to their end) ... *)
+Theorem C12_trim_refines_cfg : forall c txt sk,
+  skel_cfg c txt -> skel_wf txt sk = true ->
+  render_data c (unparse c sk) = Some (spec_trim (c_trim c) (c_lstrip c) [] sk).
+Proof. intros c txt sk H Hw. exact (skel_render_cfg c txt H sk Hw). Qed.
+Print Assumptions C12_trim_refines_cfg.
+
+(* ... which holds for  <% %> <%= %> <%# #%>  (block start a prefix of both other start strings)
+   and  $% %$ ${ } $# #$  (shared first character), all four settings *)
+Theorem C12_trim_refines_families : forall t l,
+  skel_cfg (cfg_default t l false [10]) (txt_of 123) /\
+  skel_cfg (cfg_asp t l false [10]) (txt_of 60) /\
+  skel_cfg (cfg_dollar t l false [10]) (txt_of 36).
+Proof. intros t l. exact (conj (skel_cfg_default t l) (conj (skel_cfg_asp t l) (skel_cfg_dollar t l))). Qed.
+Print Assumptions C12_trim_refines_families.
+
+(* The interplay of the two sides of a text, every text: applying the previous tag's right rule
+   first and the next tag's left rule to the remainder with the lexer's line_starting flag
+   (the lexer's order) equals the documented rules applied to the original text. *)
+Theorem C12_rules_commute : forall trim lstrip L R s,
+  left_rule lstrip R (ls_ctx trim L s) (right_rule trim L s)
+  = right_rule trim L (left_rule lstrip R (at_start L) s).
+Proof. intros trim lstrip L R s. exact (rules_commute trim lstrip L R s). Qed.
+Print Assumptions C12_rules_commute.
+
+(* Regression instance kept from the first round: the one-tag skeletons of the small-scope domain,
+   by computation (now also a corollary of C12_trim_refines). *)
 Theorem C12_trim_refines_small_scope : forall sk tl,
   In sk ss_skeletons -> In tl ss_settings ->
   trim_check (cfg_default (fst tl) (snd tl) false [10]) sk = true.
